@@ -258,11 +258,19 @@ impl World {
                     }
                 }
                 ForeignKind::OtherProtocol => {
-                    let other = match t.proto {
-                        Proto::Icmp => wire::PROTO_UDP,
-                        Proto::Udp => wire::PROTO_TCP,
-                        Proto::Tcp => wire::PROTO_UDP,
+                    // any protocol number but the tracer's own: the usual three, the ICMP of
+                    // the other address family, and arbitrary ones
+                    let own = match (t.proto, t.v6) {
+                        (Proto::Icmp, false) => wire::PROTO_ICMP,
+                        (Proto::Icmp, true) => wire::PROTO_ICMPV6,
+                        (Proto::Udp, _) => wire::PROTO_UDP,
+                        (Proto::Tcp, _) => wire::PROTO_TCP,
                     };
+                    let pool = [wire::PROTO_UDP, wire::PROTO_TCP, wire::PROTO_ICMP, wire::PROTO_ICMPV6, 0, 2, 47, 132, 255];
+                    let mut other = pool[self.tape.pick(pool.len())];
+                    if other == own {
+                        other = if own == wire::PROTO_UDP { wire::PROTO_TCP } else { wire::PROTO_UDP };
+                    }
                     if f[0] >> 4 == 6 {
                         f[6] = other;
                     } else {
@@ -301,7 +309,8 @@ impl World {
             }
             // an echo reply does not quote the destination: "other destination" is only
             // expressible as an ICMP error
-            let as_target = self.tape.chance(400) && !(t.proto == Proto::Icmp && kind == ForeignKind::OtherDestination);
+            // ... nor the protocol of the answered datagram
+            let as_target = self.tape.chance(400) && !(t.proto == Proto::Icmp && matches!(kind, ForeignKind::OtherDestination | ForeignKind::OtherProtocol));
             let note = match kind {
                 ForeignKind::OtherDestination => "foreign.other-destination",
                 ForeignKind::OtherFixedPort => "foreign.other-fixed-port",
